@@ -1052,6 +1052,11 @@ func buildIntrinsics() map[string]intrinsic {
 		}
 		return nil
 	})
+	// Yield(): explicit voluntary switch point (e.g. "this I/O takes a while"); counts against the preemption bound
+	reg(vfn("Yield"), func(ex *Exec, fr *frame, fn *ssa.Function, args []Value) Value {
+		ex.yield(nil)
+		return nil
+	})
 	reg(vfn("SchedPreempt"), func(ex *Exec, fr *frame, fn *ssa.Function, args []Value) Value {
 		ex.preemptLeft = int(ex.concretize(args[0].(*Term), "SchedPreempt"))
 		return nil
